@@ -187,6 +187,9 @@ def run(ctx):
                     hist[k] = int(v)
             cc = sorted(set(o.split()[9] for o in ops if o.startswith("tf conf") and len(o.split()) >= 10))
             ctx.corr["close_clears_out_probe"] = cc   # ["0"]: tree before fix F44, ["1"]: with it (model parameter Cfg.closeClears)
+            if cc and cc != ["0"]:
+                # F44 (Close() clears f.out) is NOT committed and stays a proposal: the committed shape is expected (round 10)
+                corr_broken.append("probe of Close() on the real code: closeClears = %s, expected 0 (fixes/F44 is a proposal, not in /repo)" % cc)
             ctx.corr.setdefault("runs", []).append({"label": label, "histogram": hist,
                                                      "oracle": [l for l in log.splitlines() if l.startswith("ORACLE-DONE")]})
             for o, i in list(zip(ops, impl))[1:6]:
